@@ -45,7 +45,7 @@ def one_path(draw, mids_pool, base, scale):
 def path_list(draw):
     mids_pool = draw(st.sampled_from([['a', 'b', 'c'], ['a', 'b', 'c'], [-1, -2, 3], [0, -1, -2], [1, '1', 2], ['7', 7, 'a'],
                                       [{"obj": 0}, {"obj": 1}, {"obj": 2}], [{"obj": 3}, 'a', {"tuple": [1, 2]}]]))
-    base = draw(st.sampled_from([0, 0, -2, -5, -1, 10 ** 9]))
+    base = draw(st.sampled_from([0, 0, 0, -2, -5, -1, 10 ** 9, 2 ** 63 - 2, -(2 ** 63) - 3, 2 ** 70]))
     scale = draw(st.sampled_from([1, 1, 1, 10 ** 9]))
     return draw(st.lists(one_path(mids_pool, base, scale), min_size=1, max_size=8))
 
